@@ -42,7 +42,7 @@ Proof. apply RV.Proofs.SitesFacts.literals_okb_sound. vm_compute. reflexivity. Q
 Print Assumptions C10_literals_reviewed.
 
 (* ---- LongTermKey::calc_srv_value AS TRANSLATED FROM THE SOURCE on this run ---- *)
-Require Import RV.Model.Message RV.Model.GenSupport RV.Gen.Code RV.Spec.MerkleGoals RV.Proofs.CodeMerkle.
+Require Import RV.Model.Message RV.Model.GenSupport RV.Gen.Code RV.Spec.MerkleGoals RV.Proofs.CodeSrv.
 
 Theorem C10_translated_srv_value_is_model :
   forall H, HashLen H -> forall pk, gen_calc_srv_value H pk = Ok (calc_srv_value H pk).
@@ -52,7 +52,7 @@ Print Assumptions C10_translated_srv_value_is_model.
 (* ---- OnlineKey::make_dele and LongTermKey::make_cert AS TRANSLATED FROM THE SOURCE on this run:
    the window constants (MINT = 8 zero bytes, MAXT = 8 0xff bytes), the field order, the signature
    over the version's delegation prefix ++ DELE ---- *)
-Require Import RV.Proofs.CodeKeys.
+Require Import RV.Proofs.CodeCert.
 
 Theorem C10_translated_make_cert_is_model :
   forall ed_pk ed_sign lt v ok,
